@@ -12,6 +12,7 @@ from absint.models_std2 import tag_seqs
 from rules.c01 import INVARIANTS
 
 A = "stun_proto::agent::"
+DEEP = [False]      # set by a rule running in the thorough tier: deeper bounds (three requests, longer lists)
 OPAQUE = ("std::time::Instant", "std::time::Duration", "std::net::SocketAddr")
 
 
@@ -749,11 +750,12 @@ def agent_poll(prog, chk, rule="agent-poll-table"):
             tid = Fields(prog, REQ, sv)["transaction_id"]
         event_once(st, "reqpoll", out, ref_id(who), payload, tid)
     results = []
-    for mode in ("any number of requests (one summary request)", "two requests"):
+    modes = ("any number of requests (one summary request)", "two requests")     # three distinct requests do not finish in reasonable time
+    for mode in modes:
         def setup(run, st, mode=mode):
-            if mode == "two requests":
-                run.it.map_elems = 2
-                run.it.max_parts = 4000
+            if mode in ("two requests", "three requests"):
+                run.it.map_elems = 2 if mode == "two requests" else 3
+                run.it.max_parts = 60000
         r = Run(prog, key, pre_hooks={REQ + "::poll": pre}, hooks={REQ + "::poll": post}, setup=setup)
         if r.error or not r.results:
             chk.fail(rule, "analysis|" + mode, detail=r.error or "no return state")
